@@ -231,12 +231,12 @@ func (s *RecService) TCPByRemote(remote string) *RecTCPConn {
 
 // RecSSMetrics records cipher searches at the ShadowsocksConnMetrics level.
 type RecSSMetrics struct {
-	mu    sync.Mutex
+	sync.Mutex
 	Found []bool
 }
 
 func (m *RecSSMetrics) AddCipherSearch(found bool, d time.Duration) {
-	m.mu.Lock()
+	m.Lock()
 	m.Found = append(m.Found, found)
-	m.mu.Unlock()
+	m.Unlock()
 }
